@@ -583,6 +583,85 @@ class CopyFn(Fn):
             raise Unsupported(f'{k} in a copy function')
         return self.walk(rest, env, eff)
 
+    # ---- the same inside a worker loop: `while (..) { ...; if (size guard) continue; if (opaque) { memcpy; setData; } ... }`
+    def try_expr(self, n, env):
+        try:
+            return self.expr(n, env)
+        except (Unsupported, KeyError, IndexError, TypeError):
+            return None
+
+    def has_copy(self, n):
+        if n.get('kind') in ('CallExpr', 'CXXMemberCallExpr') and self.callee_name(n) in ('memcpy', 'setData'):
+            return True
+        return any(self.has_copy(c) for c in n.get('inner', []) if isinstance(c, dict))
+
+    def effects_of(self, n, env, eff):
+        """memcpy / setData arguments found in statement n (any nesting)"""
+        if n.get('kind') in ('CallExpr', 'CXXMemberCallExpr'):
+            name = self.callee_name(n); args = n['inner'][1:]
+            if name == 'memcpy' and len(args) == 3:
+                eff.setdefault('sites', []).append(('copy', self.ptr_offset(args[1], env), self.expr(args[2], env)))
+            elif name == 'setData' and len(args) == 2:
+                eff.setdefault('sites', []).append(('data', self.expr(args[0], env), self.expr(args[1], env)))
+        for c in n.get('inner', []):
+            if isinstance(c, dict):
+                self.effects_of(c, env, eff)
+
+    def walk_loop(self, lst, env, guards, eff):
+        for s in lst:
+            k = s.get('kind')
+            if k == 'CompoundStmt':
+                self.walk_loop(s.get('inner', []), env, guards, eff)
+            elif k == 'DeclStmt':
+                for d in s['inner']:
+                    t = strip_q(d.get('type', {}).get('qualType', ''))
+                    if d['kind'] == 'VarDecl' and (t in UNSIGNED or t in SIGNED or t == 'ssize_t'):
+                        v = self.try_expr(d['inner'][-1], env) if 'inner' in d else None
+                        env[d['name']] = v if v is not None else self._extra(d['name'], d['type']['qualType'], env)   # e.g. the return value of recvfrom
+            elif k == 'IfStmt':
+                inner = s['inner']
+                if self.has_copy(s):
+                    # the branch(es) that copy: conditions that can be translated are further guards of the copy
+                    c = self.try_expr(inner[0], env)
+                    if self.has_copy(inner[1]):
+                        if c is not None and not self.has_copy(inner[2]) if len(inner) > 2 else c is not None:
+                            guards.append(('need', c))
+                        self.walk_loop([inner[1]], env, guards, eff)
+                    if len(inner) > 2 and self.has_copy(inner[2]):
+                        if c is not None and not self.has_copy(inner[1]):
+                            guards.append(('reject', c))
+                        self.walk_loop([inner[2]], env, guards, eff)
+                elif self._has_kind(inner[1], ('ContinueStmt', 'BreakStmt', 'ReturnStmt')) and len(inner) == 2:
+                    c = self.try_expr(inner[0], env)
+                    if c is not None:
+                        guards.append(('reject', c))
+                # other ifs cannot influence the sizes
+            elif k == 'ForStmt':
+                self.walk_loop([s['inner'][-1]], env, guards, eff)
+            elif self.has_copy(s):
+                self.effects_of(s, env, eff)
+
+    def translate_loop_copy(self, fname):
+        self.fields_as_params = True
+        self.pure = True
+        body = [c for c in self.node.get('inner', []) if c['kind'] == 'CompoundStmt'][0]
+        whiles = [c for c in body.get('inner', []) if c['kind'] == 'WhileStmt']
+        if len(whiles) != 1:
+            raise Unsupported('no single while loop')
+        env, guards, eff = {}, [], {}
+        self.walk_loop([whiles[0]['inner'][1]], env, guards, eff)
+        sites = eff.get('sites', [])
+        copies = sorted(set((a, b) for k, a, b in sites if k == 'copy'))
+        datas = sorted(set((a, b) for k, a, b in sites if k == 'data'))
+        if len(datas) != 1 or len(copies) > 1:
+            raise Unsupported(f'copy sites disagree or are missing: {copies} {datas}')
+        res = ([copies[0][0], copies[0][1]] if copies else []) + [datas[0][0], datas[0][1]]
+        txt = 'Some [' + '; '.join(res) + ']'
+        for kind, c in reversed(guards):
+            txt = f'(if {c} then None else {txt})' if kind == 'reject' else f'(if {c} then {txt} else None)'
+        args = ''.join(f' ({p_} : Z)' for p_, _ in self.extra_params)
+        return f'Definition {fname}{args} : option (list Z) :=\n{txt}.\n'
+
     def translate_copy(self, fname):
         self.fields_as_params = True
         self.pure = True
@@ -961,7 +1040,20 @@ def main():
         parts.append(f.translate_copy(f'{cls}_{coq_ident(method)}_copy'))
 
     I = 'rs_driver/driver/input/'
-    jobs += [('InputRaw_feedPacket', lambda: do_copy('InputRaw', 'feedPacket'))]
+    def do_loop_copy(cls, method):
+        m = None
+        for doc in tr.ast(f'{cls}::{method}', ['rs_driver/api/lidar_driver.hpp']):
+            if doc['kind'] == 'CXXMethodDecl' and doc.get('name') == method and any(x['kind'] == 'CompoundStmt' for x in doc.get('inner', [])):
+                m = doc
+        if m is None:
+            raise Unsupported(f'{cls}::{method} not found')
+        f = CopyFn(tr, cls, m, [], False)
+        parts.append(f'(* ---- sizes checked and copied in the loop of {cls}::{method} ---- *)\n')
+        parts.append(f.translate_loop_copy(f'{cls}_{coq_ident(method)}_copy'))
+
+    jobs += [('InputRaw_feedPacket', lambda: do_copy('InputRaw', 'feedPacket')),
+             ('InputPcap_copy', lambda: do_loop_copy('InputPcap', 'recvPacket')),
+             ('InputSock_copy', lambda: do_loop_copy('InputSock', 'recvPacket'))]
     jobs += [
         ('LidarDriverImpl_processPacket', lambda: do_loop('LidarDriverImpl', 'processPacket', 'rs_driver/driver/lidar_driver_impl.hpp', 'to_exit_handle_',
                                                           ['popWait', 'get', 'internalProcessPacket'])),
